@@ -17,10 +17,16 @@ type Table struct {
 	Rows [][]Cell `json:"rows"`
 }
 
+// PKNames returns the key as wrgl takes it: column names, each name once (with duplicate column
+// names one name selects every column carrying it, see TableOpts.DupNames).
 func (t Table) PKNames() []string {
-	out := make([]string, len(t.PK))
-	for i, k := range t.PK {
-		out[i] = t.Cols[k]
+	out := make([]string, 0, len(t.PK))
+	seen := map[string]bool{}
+	for _, k := range t.PK {
+		if !seen[t.Cols[k]] {
+			seen[t.Cols[k]] = true
+			out = append(out, t.Cols[k])
+		}
 	}
 	return out
 }
@@ -79,6 +85,10 @@ type TableOpts struct {
 	ForceUnique bool // keys unique (duplicates removed by construction)
 	MaxBig      int  // max size class of special long cells: 0 none, 1 1KiB, 2 32KiB, 3 65535
 	PreferLarge bool // half of the tables have more than one block
+	// DupNames: now and then a non-key column gets the name of a key column. wrgl resolves a key
+	// name to every column carrying it, so that column joins the key (PK lists the effective key
+	// columns: for each key name in order, all columns of that name).
+	DupNames bool
 }
 
 var keyComponents = []string{"", "0", "00", "01", "1", "A", "a", "a\x00", "a ", "a\xff", "ab", "abc", "b", "\xff", "é", " ", "\"", ",", "a,b", "x\ny"}
@@ -145,6 +155,35 @@ func GenTable(t *rapid.T, o TableOpts, label string) Table {
 		tb.PK = rapid.Permutation(idx).Draw(t, label+".pk")[:npk]
 	} else {
 		tb.PK = []int{}
+	}
+	if o.DupNames && npk > 0 && ncols > npk && rapid.IntRange(0, 9).Draw(t, label+".dupname") == 0 {
+		isKey := map[int]bool{}
+		for _, k := range tb.PK {
+			isKey[k] = true
+		}
+		var others []int
+		for i := 0; i < ncols; i++ {
+			if !isKey[i] {
+				others = append(others, i)
+			}
+		}
+		victim := rapid.SampledFrom(others).Draw(t, label+".dupcol")
+		tb.Cols[victim] = tb.Cols[rapid.SampledFrom(tb.PK).Draw(t, label+".dupof")]
+		var eff []int
+		done := map[string]bool{}
+		for _, k := range tb.PK {
+			n := tb.Cols[k]
+			if done[n] {
+				continue
+			}
+			done[n] = true
+			for i, c := range tb.Cols {
+				if c == n {
+					eff = append(eff, i)
+				}
+			}
+		}
+		tb.PK = eff
 	}
 	// row count
 	var n int
